@@ -381,7 +381,7 @@ theorem fv_step (h : HooksG) (inner : Inner) (fuel : Nat)
           · exact post_pure (by simp [FvQR, FvQ, Fv.info, FvWf, FilesWf, htl]; omega)
           · refine post_bind (post_sliceToG (by omega) ?_)
             have hdo : align8G (if (decide (rd (List.take 56 data) 52 2 ≠ 0 ∧ rd (List.take 56 data) 32 8 ≥ 20 ∧
-                  rd (List.take 56 data) 52 2 < rd (List.take 56 data) 32 8 - 20)) = true
+                  rd (List.take 56 data) 52 2 ≤ rd (List.take 56 data) 32 8 - 20)) = true
                 then rd (List.take 56 data) 52 2 + ehs else rd (List.take 56 data) 48 2) < 2 ^ 63 := by
               split
               · have := align8G_le (rd (List.take 56 data) 52 2 + ehs) (by omega); omega
